@@ -30,6 +30,9 @@ LEAN = os.path.join(VERIF, 'lean')
 REPO = os.environ.get('VERIF_REPO', '/repo')
 if REPO not in sys.path:
     sys.path.insert(0, REPO)      # before anything imports torch_frame
+# Only for evaluating seeded changes (tools/seed_eval.py): keeps such runs from overwriting the committed evidence.
+EVIDENCE_DIR = os.environ.get('VERIF_EVIDENCE_DIR', os.path.join(VERIF, 'evidence'))
+REPLAY_DIR = os.environ.get('VERIF_REPLAY_DIR', os.path.join(VERIF, 'replays'))
 ALLOWED_AXIOMS = {'propext', 'Classical.choice', 'Quot.sound'}
 FORBIDDEN = re.compile(
     r'\bsorry\b|\badmit\b|^\s*axiom\s|native_decide|bv_decide|implemented_by|\bunsafe\s|maxHeartbeats\s+0')
@@ -416,7 +419,7 @@ class Check:
                     break
         rc = 0
         known = load_known()
-        os.makedirs(os.path.join(VERIF, 'replays'), exist_ok=True)
+        os.makedirs(REPLAY_DIR, exist_ok=True)
         seen_keys = set()
         nviol = 0
         for i, v in enumerate(violations):
@@ -428,7 +431,7 @@ class Check:
                 print(f"KNOWN-FINDING: property={pid} {kf[0]['what']}")
                 continue
             nviol += 1
-            path = os.path.join(VERIF, 'replays', f'{pid}-{seed}-{nviol}.json')
+            path = os.path.join(REPLAY_DIR, f'{pid}-{seed}-{nviol}.json')
             json.dump({'property': pid, 'key': v.key, 'what': v.what, 'case': v.case,
                        'required': v.expected, 'observed': v.actual, 'found_by': v.source,
                        'broken_obligations': report['broken']}, open(path, 'w'), indent=1, default=str)
@@ -437,7 +440,7 @@ class Check:
         if report['broken'] and nviol == 0 and not (violations and rc == 0 and all(
                 any(k['property'] == pid and k['key'] == v.key for k in known.get('open', []))
                 for v in violations) and False):
-            path = os.path.join(VERIF, 'replays', f'{pid}-{seed}-unproved.json')
+            path = os.path.join(REPLAY_DIR, f'{pid}-{seed}-unproved.json')
             json.dump({'property': pid, 'no_longer_checks': report['broken'],
                        'disagreements': report.get('disagree_samples', [])[:5],
                        'note': 'a proof obligation or the model/code correspondence no longer checks and '
@@ -488,5 +491,5 @@ class Check:
             'wall_s': round(time.time() - t0, 2),
             'violations': nums.get('violations', 0),
         }
-        os.makedirs(os.path.join(VERIF, 'evidence'), exist_ok=True)
-        json.dump(ev, open(os.path.join(VERIF, 'evidence', f'{self.pid}.json'), 'w'), indent=1, default=str)
+        os.makedirs(EVIDENCE_DIR, exist_ok=True)
+        json.dump(ev, open(os.path.join(EVIDENCE_DIR, f'{self.pid}.json'), 'w'), indent=1, default=str)
